@@ -2,7 +2,7 @@
    after any feed sequence the cache holds exactly the most recent
    min(gop_num, #gops) GOPs, oldest first, each cut at the frame cap. *)
 From Lal Require Import Group.GroupGopCache.
-From Coq Require Import List Arith Bool Lia.
+From Coq Require Import List Arith Bool Lia NArith.
 Import ListNotations.
 
 Section Spec.
@@ -224,14 +224,45 @@ Proof.
         rewrite !app_nth1 by lia. reflexivity.
 Qed.
 
-(* every feed keeps the ring in step with the queue of GOPs *)
-Theorem ring_inv_feed g G c b :
-  ring_inv g G -> ring_inv (fst (gc_feed g c b)) (if Nat.ltb 1 (gc_size g) then gops_feed (gc_max g) G c b else G).
+(* dropping every cached GOP (a sequence header with new content arrived) *)
+Lemma ring_inv_reset g G : ring_inv g G ->
+  ring_inv {| gc_meta_w := gc_meta_w g; gc_meta_wo := gc_meta_wo g; gc_vsh := gc_vsh g; gc_ash := gc_ash g;
+              gc_vsh_p := gc_vsh_p g; gc_ash_p := gc_ash_p g;
+              gc_ring := gc_ring g; gc_first := 0; gc_last := 0; gc_size := gc_size g; gc_max := gc_max g |} [].
 Proof.
-  intro Hinv. destruct c; cbn [gc_feed fst gops_feed].
+  intros [Hs Hlen Hf Hl Hc Hd]. constructor; cbn [gc_size gc_ring gc_first gc_last]; try lia.
+  - unfold gc_count. cbn [gc_size gc_first gc_last]. rewrite Nat.add_0_l, Nat.sub_0_r, Nat.mod_same by lia. reflexivity.
+  - intros i Hi. unfold gc_count in Hi. cbn [gc_size gc_first gc_last] in Hi.
+    rewrite Nat.add_0_l, Nat.sub_0_r, Nat.mod_same in Hi by lia. lia.
+Qed.
+
+Lemma ring_inv_hdr_fields g G v a vp ap :
+  ring_inv g G ->
+  ring_inv {| gc_meta_w := gc_meta_w g; gc_meta_wo := gc_meta_wo g; gc_vsh := v; gc_ash := a;
+              gc_vsh_p := vp; gc_ash_p := ap;
+              gc_ring := gc_ring g; gc_first := gc_first g; gc_last := gc_last g; gc_size := gc_size g; gc_max := gc_max g |} G.
+Proof. intros [Hs Hlen Hf Hl Hc Hd]. constructor; assumption. Qed.
+
+(* the queue of GOPs the cache is specified to hold after one feed *)
+Definition gops_after (g : gop_cache A) (G : list (list A)) (c : mclass) (b : A) (p : list N) : list (list A) :=
+  match c with
+  | MVsh => if hdr_changed (gc_vsh_p g) p then [] else G
+  | MAsh => if hdr_changed (gc_ash_p g) p then [] else G
+  | _ => if Nat.ltb 1 (gc_size g) then gops_feed (gc_max g) G c b else G
+  end.
+
+(* every feed keeps the ring in step with the queue of GOPs *)
+Theorem ring_inv_feed g G c b p :
+  ring_inv g G -> ring_inv (fst (gc_feed g c b p)) (gops_after g G c b p).
+Proof.
+  intro Hinv. destruct c; cbn [gc_feed fst gops_after gops_feed].
   - destruct (Nat.ltb 1 (gc_size g)); exact Hinv.
-  - destruct Hinv; destruct (Nat.ltb 1 (gc_size g)); constructor; assumption.
-  - destruct Hinv; destruct (Nat.ltb 1 (gc_size g)); constructor; assumption.
+  - destruct (hdr_changed (gc_ash_p g) p).
+    + pose proof (ring_inv_reset g G Hinv) as H. destruct H; constructor; assumption.
+    + destruct Hinv; constructor; assumption.
+  - destruct (hdr_changed (gc_vsh_p g) p).
+    + pose proof (ring_inv_reset g G Hinv) as H. destruct H; constructor; assumption.
+    + destruct Hinv; constructor; assumption.
   - destruct (Nat.ltb_spec 1 (gc_size g)); cbn [fst]; [now apply ring_inv_new_gop|exact Hinv].
   - destruct (Nat.ltb_spec 1 (gc_size g)); cbn [fst]; [now apply ring_inv_last_gop|exact Hinv].
 Qed.
